@@ -150,7 +150,8 @@ PROPS = {
     "C16": {
         "runs": rns_runs, "replay_runs": replay_runs, "monitor": mon_rns.c16, "facts": facts.gen_pure_fns,
         "diff_relevant": lambda d: (d["mod"] == "query" and d["op"] in ("rns.name", "rns.listOwnedNames", "rns.primaryName")) or
-            (d["mod"] == "rns" and d["op"] in ("register", "init")),
+            (d["mod"] == "rns" and d["op"] in ("register", "init")) or
+            (d["mod"] == "rns" and d["op"] == "restart" and "names" in d["fields"]),  # "unexpired for at least Y years": a name may not vanish in a restart
         "trusted_base": BASE_TRUST, "assumptions": RNS_ASSUME,
     },
 }
